@@ -1012,10 +1012,22 @@ func Run(args []string) {
 						rec.Redo2, rec.Redo2Err = "other", fmt.Sprintf("after a second crash (at %d): %s %s %s", k2, s2.openErr, s2.readErr, s2.clockWhy)
 					}
 					if rec.Redo2 == "ok" {
-						if _, code, o := child(d2, j.sc.name, 0, -1); code != 0 {
-							rec.Redo2, rec.Redo2Err = "other", "repeating the call after two crashes failed: "+lastLine(o)
-						} else if s3 := signature(d2); !same(s3, j.post) {
-							rec.Redo2, rec.Redo2Err = "other", "state after two crashes and a complete call: "+s3.String()
+						// complete what is still missing (nothing, when the second run got through before its crash point)
+						still := false
+						for _, v := range classify(j, s2) {
+							if v == "pre" {
+								still = true
+							}
+						}
+						if still {
+							if _, code, o := child(d2, j.sc.name, 0, -1); code != 0 {
+								rec.Redo2, rec.Redo2Err = "other", "repeating the call after two crashes failed: "+lastLine(o)
+							}
+						}
+						if rec.Redo2 == "ok" {
+							if s3 := signature(d2); !same(s3, j.post) {
+								rec.Redo2, rec.Redo2Err = "other", "state after two crashes and a complete call: "+s3.String()
+							}
 						}
 					}
 				}
